@@ -51,28 +51,29 @@ def budget(tier):
     return {"cases": 3000, "shards": 16}
 
 
+def candidates(nd):
+    """Several candidate values per leaf (the first accepted one is used); containers get big candidates."""
+    base = ops.value_for(nd)
+    extra = []
+    if nd["kind"] == "list" and nd.get("item"):
+        extra.append(st.lists(specs.values(nd["item"]), min_size=3, max_size=8))
+    elif nd["kind"] == "list":
+        extra.append(st.lists(trees.scalar_strategy("xml"), min_size=3, max_size=8))
+    elif nd["kind"] == "dict":
+        vf = specs.values(nd["valuef"]) if nd.get("valuef") else trees.scalar_strategy("xml")
+        kf = (specs.values(nd["keyf"]) if nd.get("keyf") else st.sampled_from(["a", "b", "c", "d", "e", "k1", "k2"])).filter(specs._hashable)
+        extra.append(st.dictionaries(kf, vf, min_size=3, max_size=7))
+    elif nd["kind"] == "schemalist":
+        extra.append(st.lists(ops.subtree(nd, full=True), min_size=2, max_size=5))
+    elif nd["kind"] == "secure":
+        extra.append(st.sampled_from([" padded ", "tr\u00e4iling  ", "x", "multi\nline", "s3cr3t-\u00fc"]))
+    elif nd["kind"] == "any":
+        extra.append(trees.tree_strategy("xml", 6, top_map=False))
+    return st.lists(st.one_of(base, *extra), min_size=4, max_size=4) if extra else st.lists(base, min_size=4, max_size=4)
+
+
 def strategy(tier):
     n = 6 if tier == "quick" else 15
-
-    def candidates(nd):
-        """Several candidate values per leaf (the first accepted one is used); containers get big candidates."""
-        base = ops.value_for(nd)
-        extra = []
-        if nd["kind"] == "list" and nd.get("item"):
-            extra.append(st.lists(specs.values(nd["item"]), min_size=3, max_size=8))
-        elif nd["kind"] == "list":
-            extra.append(st.lists(trees.scalar_strategy("xml"), min_size=3, max_size=8))
-        elif nd["kind"] == "dict":
-            vf = specs.values(nd["valuef"]) if nd.get("valuef") else trees.scalar_strategy("xml")
-            kf = (specs.values(nd["keyf"]) if nd.get("keyf") else st.sampled_from(["a", "b", "c", "d", "e", "k1", "k2"])).filter(specs._hashable)
-            extra.append(st.dictionaries(kf, vf, min_size=3, max_size=7))
-        elif nd["kind"] == "schemalist":
-            extra.append(st.lists(ops.subtree(nd, full=True), min_size=2, max_size=5))
-        elif nd["kind"] == "secure":
-            extra.append(st.sampled_from([" padded ", "tr\u00e4iling  ", "x", "multi\nline", "s3cr3t-\u00fc"]))
-        elif nd["kind"] == "any":
-            extra.append(trees.tree_strategy("xml", 6, top_map=False))
-        return st.lists(st.one_of(base, *extra), min_size=4, max_size=4) if extra else st.lists(base, min_size=4, max_size=4)
 
     def hist(spec):
         leaves = ops.spec_leaves(spec)
